@@ -327,14 +327,21 @@ func VerifC07Update() {
 	}
 	// the bystander: any type, including boundary members (empty string, empty binary, false, NULL)
 	ukinds := append([]string{}, vspec.Kinds[1:]...)
-	uk := nd.Choice("bystander", len(ukinds)+2)
+	uk := nd.Choice("bystander", len(ukinds)+5)
 	switch {
 	case uk < len(ukinds):
 		pre["u"] = vspec.GenVal("u", ukinds[uk], 1)
 	case uk == len(ukinds):
 		pre["u"] = vspec.Val{Kind: "S", S: ""}
-	default:
+	case uk == len(ukinds)+1:
 		pre["u"] = vspec.Val{Kind: "B", B: []byte{}}
+	case uk == len(ukinds)+2:
+		pre["u"] = vspec.Val{Kind: "L", L: []vspec.Val{}} // an empty list is a list
+	case uk == len(ukinds)+3:
+		pre["u"] = vspec.Val{Kind: "M", M: map[string]vspec.Val{}}
+	default:
+		// containers inside containers, one of them empty
+		pre["u"] = vspec.Val{Kind: "M", M: map[string]vspec.Val{"e": {Kind: "L", L: []vspec.Val{}}, "f": {Kind: "L", L: []vspec.Val{{Kind: "M", M: map[string]vspec.Val{}}}}}}
 	}
 	b := vVals{}
 	for _, name := range t.vals {
